@@ -154,7 +154,7 @@ ChooseMaxNorm(m, d) ==
   /\ UNCHANGED <<cur, tab, ren, dirty, calls, base, handles, ids, sw>>
 
 AddRow(r) ==
-  /\ Part = "renorm" /\ vec.stage = "rows" /\ Len(vec.rows) < Bound
+  /\ Part = "renorm" /\ vec.stage = "rows" /\ Len(vec.rows) < Bound /\ r \in RowsOf(vec.d)
   /\ vec' = [vec EXCEPT !.rows = Append(@, r)]
   /\ last' = [op |-> "AddRow", c |-> "", k |-> 0]
   /\ UNCHANGED <<cur, tab, ren, dirty, calls, base, handles, ids, sw>>
@@ -489,7 +489,7 @@ ConcatShapes == {<<"vec", f, e, 0>> : f \in 1..3, e \in 1..3} \cup {<<"batch", f
 
 Next ==
   \/ \E m \in MaxNorms : \E d \in (IF Wide THEN {2, 3} ELSE {2}) : ChooseMaxNorm(m, d)
-  \/ (Part = "renorm" /\ vec.stage = "rows" /\ \E r \in RowsOf(vec.d) : AddRow(r))
+  \/ \E r \in Rows2 \cup Rows3 : AddRow(r)
   \/ Renorm
   \/ \E s \in ConcatShapes : ChooseShape(s[1], s[2], s[3], s[4])
   \/ Concat \/ ConcatUnbatchedDim1 \/ ConcatRank3
